@@ -207,7 +207,7 @@ def check_text(case, stats):
         if not (1 <= line <= len(L)) or not isinstance(col, int) or not (1 <= col <= len(L[line - 1]) + 1):
             raise Violation(case, "error %r located outside the source" % (msg,))
         src = L[line - 1]
-        hard = hard or any(ord(c) > 0xFFFF or c == "\t" for c in src[:col - 1])
+        hard = hard or any(ord(c) > 0xFFFF or c == "\t" or 0xD800 <= ord(c) <= 0xDFFF for c in src[:col - 1])
         if "got '" in msg:
             if col - 1 != lead_ws(src) or not msg.endswith("got '" + trim(src) + "'"):
                 raise Violation(case, "unexpected-line error %r: first non-blank character of the line is at column %d, line is %r" % (msg, lead_ws(src) + 1, src))
@@ -245,8 +245,29 @@ def unit_corpus(a):
     return stats
 
 
+SURROGATE_UNITS = ["\ud83d\ude00", "\ud83d", "\ude00", "\ude00\ud83d", "\ud83d\ud83d\ude00", "\udbff\udfff", "\ud800\udc00", "\ud800\udc00\ud800\udc00", "a\udc00"]
+SURROGATE_TEMPLATES = ["Feature: f\n @a%s @b @c\n Scenario: s\n  Given x\n", "Feature: f\n Scenario: s\n  Given x\n   | %s | second | third |\n   | a | b%s | c |\n",
+                       "Feature: %s\n Scenario: s %s\n  Given x %s\n   | a |\n", "Feature: f\n @a%s b\n Scenario: s\n", "Feature: f\n Scenario: s\n  Given x\n   | %s | b |\n   | c |\n",
+                       "Feature: f\n Scenario: s\n  Given x\n   \"\"\"%s\n   d%s\n   \"\"\"\n  And y\n", "@%s @t\nFeature: f\n # c %s\n Scenario Outline: o\n  Given <%s>\n  Examples:\n   | %s | b |\n   | 1 | 2 |\n",
+                       "Feature: f\n %s unexpected\n"]
+
+
+def check_cps(case, stats):
+    """sources given as code points (strings holding surrogate code points do not survive a JSON round trip as they are)"""
+    text = "".join(map(chr, case["cps"]))
+    return check_text(dict(case, text=text), stats)
+
+
+def unit_surrogates(a):
+    """a str may hold surrogate code points (text decoded with surrogatepass / surrogateescape, data from UTF-16 sources): each is ONE column,
+    also when a high one is followed by a low one"""
+    stats = Stats()
+    sweep(stats, ({"sub": "cps", "cps": [ord(c) for c in t.replace("%s", u)], "label": "surrogates"} for t in SURROGATE_TEMPLATES for u in SURROGATE_UNITS), check_cps)
+    return stats
+
+
 def replay(case, stats):
-    return {"model": check_model, "text": check_text}[case["sub"]](case, stats)
+    return {"model": check_model, "text": check_text, "cps": check_cps}[case["sub"]](case, stats)
 
 
 def run(ctx):
@@ -254,6 +275,7 @@ def run(ctx):
     ctx.units("corpus", unit_corpus, [{}])
     from . import magnitude
     magnitude.run_big(ctx, "c04", "check_text", "text")
+    ctx.units("surrogate-code-points", unit_surrogates, [{}])
     ctx.units("model-documents", unit_model, [{"n": 900 if q else 8000, "seed": ctx.seed, "shard": i} for i in range(8 if q else 16)], procs=16)
     ctx.units("noisy-documents", unit_noisy, [{"n": 900 if q else 8000, "seed": ctx.seed, "shard": i} for i in range(8 if q else 16)], procs=16)
     ctx.rule = ("(a) generated documents: the location tree of the AST equals the positions the renderer put the elements at; (b) any accepted document "
